@@ -219,12 +219,12 @@ pub fn harden_ros(c: &RosCase) -> Vec<(String, RosCase)> {
     let extra: AC = (ArrSpec::Sporadic { t: 7, j: 1 }, CostSpec::Scalar(1));
     // supply
     let sup = match c {
-        RosCase::EventSource { supply, .. } | RosCase::Timer { supply, .. } | RosCase::Pp { supply, .. } | RosCase::Chain { supply, .. } | RosCase::Sub { supply, .. } => supply.clone(),
+        RosCase::EventSource { supply, .. } | RosCase::Timer { supply, .. } | RosCase::Pp { supply, .. } | RosCase::Chain { supply, .. } | RosCase::ChainSummed { supply, .. } | RosCase::Sub { supply, .. } => supply.clone(),
     };
     for (n, w) in weaker_supplies(&sup) {
         let mut h = c.clone();
         match &mut h {
-            RosCase::EventSource { supply, .. } | RosCase::Timer { supply, .. } | RosCase::Pp { supply, .. } | RosCase::Chain { supply, .. } | RosCase::Sub { supply, .. } => *supply = w,
+            RosCase::EventSource { supply, .. } | RosCase::Timer { supply, .. } | RosCase::Pp { supply, .. } | RosCase::Chain { supply, .. } | RosCase::ChainSummed { supply, .. } | RosCase::Sub { supply, .. } => *supply = w,
         }
         out.push((format!("supply: {n}"), h));
     }
@@ -329,6 +329,29 @@ pub fn harden_ros(c: &RosCase) -> Vec<(String, RosCase)> {
             }
             out.push(("one more callback".into(), h));
         }
+        RosCase::ChainSummed { costs, others, .. } => {
+            for k in 0..costs.len() {
+                let mut h = c.clone();
+                if let RosCase::ChainSummed { costs, .. } = &mut h {
+                    costs[k] += 1;
+                }
+                out.push((format!("wcet+1 of chain callback {k}"), h));
+            }
+            for k in 0..others.len() {
+                for (n, x) in harden_ac(&others[k]) {
+                    let mut h = c.clone();
+                    if let RosCase::ChainSummed { others, .. } = &mut h {
+                        others[k] = x;
+                    }
+                    out.push((format!("{n} of other callback {k}"), h));
+                }
+            }
+            let mut h = c.clone();
+            if let RosCase::ChainSummed { others, .. } = &mut h {
+                others.push(extra.clone());
+            }
+            out.push(("one more callback".into(), h));
+        }
         RosCase::Sub { workload, .. } => {
             for k in 0..workload.len() {
                 for (n, x) in harden_ac(&(workload[k].arr.clone(), workload[k].cost.clone())) {
@@ -380,6 +403,7 @@ pub fn ros_bases(quick: bool) -> Vec<RosCase> {
                 v.push(RosCase::Timer { supply: sup.clone(), own: a.clone(), hp: vec![b.clone()], blocking: 1, limit: 120 });
                 v.push(RosCase::Pp { supply: sup.clone(), own: a.clone(), others: vec![b.clone()], limit: 120 });
                 v.push(RosCase::Chain { supply: sup.clone(), src: a.0.clone(), costs: vec![CostSpec::Scalar(1), a.1.clone()], others: vec![b.clone()], limit: 120 });
+                v.push(RosCase::ChainSummed { supply: sup.clone(), src: a.0.clone(), costs: vec![2, 1, a.1.wcet()], others: vec![b.clone()], limit: 120 });
                 for bw in [false, true] {
                     for (k0, k1) in [(Kind::Polled(1), Kind::Polled(2)), (Kind::Polled(2), Kind::Polled(1)), (Kind::Timer, Kind::PolledUnknown), (Kind::PolledUnknown, Kind::EventSource)] {
                         for sc in [vec![0usize], vec![1, 0]] {
@@ -497,7 +521,7 @@ pub fn run_c17(ctx: &mut Ctx) -> (String, Value, Vec<String>) {
         if let Outcome::Ok(a) = base {
             for dl in [1u64, 50] {
                 let cur = match c {
-                    RosCase::EventSource { limit, .. } | RosCase::Timer { limit, .. } | RosCase::Pp { limit, .. } | RosCase::Chain { limit, .. } | RosCase::Sub { limit, .. } => *limit,
+                    RosCase::EventSource { limit, .. } | RosCase::Timer { limit, .. } | RosCase::Pp { limit, .. } | RosCase::Chain { limit, .. } | RosCase::ChainSummed { limit, .. } | RosCase::Sub { limit, .. } => *limit,
                 };
                 let h = crate::props::c07::set_limit(c, cur + dl);
                 pairs.fetch_add(1, Ordering::Relaxed);
@@ -637,14 +661,14 @@ pub fn run_c19(ctx: &mut Ctx) -> (String, Value, Vec<String>) {
         }
     });
     // every ROS 2 analysis: dedicated == periodic(q=p) == constrained(q=d=p)
-    let rb: Vec<RosCase> = ros_bases(quick).into_iter().filter(|c| matches!(c, RosCase::EventSource { supply: SupplySpec::Dedicated, .. } | RosCase::Timer { supply: SupplySpec::Dedicated, .. } | RosCase::Pp { supply: SupplySpec::Dedicated, .. } | RosCase::Chain { supply: SupplySpec::Dedicated, .. } | RosCase::Sub { supply: SupplySpec::Dedicated, .. })).collect();
+    let rb: Vec<RosCase> = ros_bases(quick).into_iter().filter(|c| matches!(c, RosCase::EventSource { supply: SupplySpec::Dedicated, .. } | RosCase::Timer { supply: SupplySpec::Dedicated, .. } | RosCase::Pp { supply: SupplySpec::Dedicated, .. } | RosCase::Chain { supply: SupplySpec::Dedicated, .. } | RosCase::ChainSummed { supply: SupplySpec::Dedicated, .. } | RosCase::Sub { supply: SupplySpec::Dedicated, .. })).collect();
     rb.par_iter().for_each(|c| {
         let base = catch(|| run_ros(c));
         for p in [1u64, 2, 5] {
             for alt in [SupplySpec::Periodic { q: p, p }, SupplySpec::Constrained { q: p, dl: p, p }, SupplySpec::Opaque(Box::new(SupplySpec::Periodic { q: p, p }))] {
                 let mut h = c.clone();
                 match &mut h {
-                    RosCase::EventSource { supply, .. } | RosCase::Timer { supply, .. } | RosCase::Pp { supply, .. } | RosCase::Chain { supply, .. } | RosCase::Sub { supply, .. } => *supply = alt.clone(),
+                    RosCase::EventSource { supply, .. } | RosCase::Timer { supply, .. } | RosCase::Pp { supply, .. } | RosCase::Chain { supply, .. } | RosCase::ChainSummed { supply, .. } | RosCase::Sub { supply, .. } => *supply = alt.clone(),
                 }
                 let r = catch(|| run_ros(&h));
                 n.fetch_add(1, Ordering::Relaxed);
